@@ -1,6 +1,7 @@
 package sim
 
 import (
+	"encoding/hex"
 	"fmt"
 	"os"
 	"path/filepath"
@@ -256,6 +257,19 @@ func (w *StoreWorld) idByRef(ref int) string {
 	return w.ids[len(w.ids)-1-ref%len(w.ids)]
 }
 
+// decodeOddHeaders: a value "@hex:..." stands for those bytes (programs are kept as JSON, which cannot
+// carry a string that is not UTF-8; an HTTP field value can: obs-text, RFC 9110 5.5).
+func decodeOddHeaders(h map[string]string) map[string]string {
+	for k, v := range h {
+		if strings.HasPrefix(v, "@hex:") {
+			if b, err := hex.DecodeString(v[5:]); err == nil {
+				h[k] = string(b)
+			}
+		}
+	}
+	return h
+}
+
 func (w *StoreWorld) env(now time.Time, e EnvSpec) queue.Envelope {
 	env := queue.Envelope{ID: e.ID, Route: e.Route, Target: e.Target, Payload: e.Payload, Attempt: e.Attempt}
 	switch {
@@ -272,7 +286,7 @@ func (w *StoreWorld) env(now time.Time, e EnvSpec) queue.Envelope {
 		env.Payload = []byte(fmt.Sprintf("p%04d", w.nextPayload))
 	}
 	if len(e.Headers) > 0 {
-		env.Headers = cloneMap(e.Headers)
+		env.Headers = decodeOddHeaders(cloneMap(e.Headers))
 	}
 	if e.RecvOff != nil {
 		env.ReceivedAt = now.Add(time.Duration(*e.RecvOff))
@@ -832,14 +846,14 @@ func (w *StoreWorld) Exec(s Step) {
 		w.observe("stats", err != nil)
 		var top []string
 		for _, b := range st.TopQueued {
-			top = append(top, fmt.Sprintf("%s|%s|%d", b.Route, b.Target, b.Queued))
+			top = append(top, fmt.Sprintf("%s|%s|%d|%s|%s|%s|%s", b.Route, b.Target, b.Queued, off(b.OldestQueuedReceivedAt), off(b.EarliestQueuedNextRun), b.OldestQueuedAge, b.ReadyLag))
 		}
-		w.sum("stats -> total=%d bystate=%v top=%v %s", st.Total, fmt.Sprint(st.ByState), top, errShort(err))
+		w.sum("stats -> total=%d bystate=%v oldest=%s earliest=%s age=%s lag=%s top=%v %s", st.Total, fmt.Sprint(st.ByState), off(st.OldestQueuedReceivedAt), off(st.EarliestQueuedNextRun), st.OldestQueuedAge, st.ReadyLag, top, errShort(err))
 		if err != nil {
 			w.add([]Violation{viol("C02.stats.error", "C02,C13", "Stats failed: %v", err)})
 			return
 		}
-		w.add(w.Model.CheckStats(st))
+		w.add(w.Model.CheckStats(st, w.Clock.Now()))
 	case "lookup":
 		ids := make([]string, 0, len(s.IDRefs))
 		for _, ref := range s.IDRefs {
